@@ -907,7 +907,10 @@ def run(project: Project, rep, tier: str):
         "reachability — no RNG call from find_lb. GH-MAXD: bound provenance — on every call path to the histogram builder "
         "(`zeros((n, b+1))` indexed by `b − distance`) the bound expands to max(max(DX), max(DY)) and the matrix to DX, DY or "
         "a part of one of them, so no count wraps round to a wrong column (a necessary condition of 'valid brackets'). "
-        "Declined: that the bounds bracket the distance (C05); relabelling invariance.")
+        "GH-LABEL: in every function that receives the two labelled distance matrices, no bound term is the NEGATION of an "
+        "entry-by-entry comparison of the two used as a number (that would give a relabelled copy of one graph a positive "
+        "lower bound; a positive-outcome shortcut is sound and left alone) — one necessary condition of relabelling invariance. "
+        "Declined: that the bounds bracket the distance (C05); relabelling invariance beyond GH-LABEL.")
     fi, _ = check_coerce(project, rep)
     check_lcc(project, rep, fi)
     # GH-RESULT evaluates the entry point itself; GH-SYM reads the shapes it knows and gives way when the result was decided
@@ -937,7 +940,12 @@ def run(project: Project, rep, tier: str):
     from . import bound_rule
     bound_rule.positive_examples()
     bound_rule.check(project, rep, "GH-MAXD")
-    for rn, n in (("GH-COERCE", 3), ("GH-LCC", 2), ("GH-SYM", sym_floor), ("GH-INT", 3), ("GH-DET", 2), ("GH-MAXD", 4)):
+    # GH-LABEL: the one structural piece of relabelling invariance — no bound term is the negation of a positional comparison
+    # of the two labelled distance matrices (label_rule)
+    from . import label_rule
+    label_rule.positive_examples()
+    label_rule.check(project, rep, "GH-LABEL")
+    for rn, n in (("GH-LABEL", 3), ("GH-COERCE", 3), ("GH-LCC", 2), ("GH-SYM", sym_floor), ("GH-INT", 3), ("GH-DET", 2), ("GH-MAXD", 4)):
         rep.floor(rn, n)
     for t in ("scipy.sparse.csgraph.shortest_path", "scipy.sparse.csgraph.connected_components", "numpy.tril_indices"):
         rep.trust(t)
